@@ -13,6 +13,7 @@ import os, re, struct, random
 from . import lib
 from gen import c01gen, fbenc
 from translators import verifier_h_to_desc as t2
+from . import c01b_util
 
 
 def mutation_values(orig, width, pos, blen):
@@ -35,7 +36,13 @@ def build_schema_harness(ctx, S, name, fl):
     rc, out = ctx.gen(fbs, d, opts=('-a', '--json'))
     if rc != 0:
         return None, 'flatcc rejected generated schema: ' + out[:500]
-    desc_c = t2.parse(open(os.path.join(d, name + '_verifier.h')).read())
+    try:
+        desc_c = t2.parse(open(os.path.join(d, name + '_verifier.h')).read())
+    except t2.TranslateError as e:
+        # outside the descriptor language: the soundness theorem cannot be applied to this generated verifier; say so and let the
+        # dynamic part (C verifier vs. the verifier the reader needs, ASan walk) look for the failing buffer
+        ctx.broken_obligation('T2:' + str(e)[:120], {'schema_fbs': c01gen.render_fbs(S), 'translator_error': str(e)})
+        desc_c = {'desc': c01gen.expected_descriptor(S), 'tables': [t['name'] for t in S['tables']], 'unions': [], 'structs': {}}
     tmpl = open(os.path.join(lib.ROOT, 'harness', 'verify_walk_main.c.in')).read()
     vd, wd = [], []
     for t in S['tables']:
@@ -176,6 +183,8 @@ def run(ctx):
     if os.path.exists(os.path.join(lib.COQ, 'Properties', 'Properties_C01.v')):
         if not ctx.check_theorems():
             ctx.broken_obligation('Properties_C01.vo', getattr(ctx, 'broken', {}))
+        if os.path.exists(os.path.join(lib.COQ, 'Properties', 'Properties_C01b.v')) and not ctx.check_theorems(prop_module='Properties_C01b'):
+            ctx.broken_obligation('Properties_C01b.vo', getattr(ctx, 'broken', {}))
     fl = {'objs': ctx.rt_objs(san=True, defs=['-DNDEBUG'])}
 
     nfixed, nrand = (10, 10) if ctx.thorough else (4, 2)
@@ -296,6 +305,17 @@ def run(ctx):
                     ctx.violation('verifier-crash:%s' % klass, 'the verifier itself crashed: ' + ir[:300], rep)
                 else:
                     ctx.violation('corr:verify:%s' % klass, 'verifier model and implementation disagree: impl %s model %s' % (crc, v), rep, kind='model-impl-disagreement')
+        # JSON printer half: extracted print_walk on every accepted buffer; the printer's own error on an accepted buffer is a violation
+        pidx = [i for i, (c, ir) in enumerate(zip(cases, replies)) if ir.startswith('V 0') and c[0].startswith('vw')]
+        pcs = [(desc_e,) + tuple(cases[i][2].split()[2:6]) for i in pidx]
+        for j, pc, reply in c01b_util.printer_walk_check(ctx, [(d, r, v, int(am), hx) for d, r, v, am, hx in pcs]):
+            il, vl, wl, klass = cases[pidx[j]]
+            ctx.violation('printer-walk-model:%s' % klass, 'verifier accepted a buffer on which the JSON printer model makes an out-of-range or misaligned read or raises an error (%s)' % reply,
+                          {'schema_fbs': c01gen.render_fbs(S), 'harness_line': il, 'impl': replies[pidx[j]], 'model_print_walk': reply})
+        for i in c01b_util.printer_error_replies(replies):
+            il, vl, wl, klass = cases[i]
+            ctx.violation('printer-error:%s' % klass, 'the generated JSON printer reports error %s on a buffer the verifier accepted' % c01b_util.printer_error_code(replies[i]),
+                          {'schema_fbs': c01gen.render_fbs(S), 'harness_line': il, 'impl': replies[i]})
         ctx.cov.setdefault('accepted_buffers_walked', 0)
         ctx.cov['accepted_buffers_walked'] += accepted
         if cases: ctx.sample({'schema': name, 'case': cases[0][0][:200], 'impl': replies[0], 'model_verify': mv[0], 'model_walk': mw[0]})
